@@ -434,6 +434,13 @@ OPTIONS:
 		intf.TimestampResolution = 6
 	}
 
+	// a resolution finer than 2^-63 or 10^-19 does not fit the 64-bit
+	// arithmetic below (the divisor would wrap to zero)
+	if (intf.TimestampResolution.Binary() && intf.TimestampResolution.Exponent() > 63) ||
+		(!intf.TimestampResolution.Binary() && intf.TimestampResolution.Exponent() > 19) {
+		return fmt.Errorf("Unsupported timestamp resolution %#x", uint8(intf.TimestampResolution))
+	}
+
 	//parse options
 	if intf.TimestampResolution.Binary() {
 		//negative power of 2
